@@ -50,6 +50,9 @@ def cases(draw, tier):
             X = [[0.0] * p for _ in range(n)]
         else:
             X, _ = draw(D.structured_matrix(n, p, boundary_positions=(msl, n - msl)))
+            unit = draw(st.sampled_from([1.0, 1.0, 1.0, 1e-3, 1e-6, 1e3]))  # data in small / large units
+            if unit != 1.0:
+                X = [[v * unit for v in row] for row in X]
     mil = D.weighted(draw, [(2, st.just(2 * msl)), (6, st.integers(2 * msl, 2 * msl + 40)), (1, st.just(200))])
     scale = draw(st.sampled_from([0.0, 0.2, 0.5, 1.0, 2.0, None]))
     if isinstance(sc, dict) and sc["cls"] in ("TableChangeScore", "FunctionChangeScore") and scale is not None:
@@ -58,7 +61,21 @@ def cases(draw, tier):
     return {"params": {"change_score": sc, "threshold_scale": scale, "level": draw(K.level_strategy),
                        "min_segment_length": msl, "max_interval_length": mil,
                        "growth_factor": draw(K.growth_strategy)},
-            "X": X, "scale2": draw(st.floats(1.0, 3.0))}
+            "X": X, "scale2": draw(st.floats(1.0, 3.0)),
+            # the detector may have been fitted on other data (other length): detections are relative to threshold_
+            "n_train": draw(st.sampled_from([None, None, "shorter", "longer"]))}
+
+
+def training_data(X, mode, n_min, scorer_spec=None):
+    """Training data of another length built from X itself (deterministic): a prefix or X followed by its mirror.
+    Table scorers are defined for positions 0..n only, so they are never fitted on longer data."""
+    if mode == "longer" and isinstance(scorer_spec, dict) and scorer_spec.get("cls", "").startswith("Table"):
+        mode = None
+    if mode == "shorter" and len(X) > n_min:
+        return X[: max(n_min, (len(X) + n_min) // 2)]
+    if mode == "longer":
+        return np.vstack([X, X[::-1], X])
+    return X
 
 
 def check(case):
@@ -66,8 +83,9 @@ def check(case):
     X = np.asarray(case["X"], dtype=float)
     n, p = X.shape
     msl, mil = params["min_segment_length"], params["max_interval_length"]
+    Xtrain = training_data(X, case.get("n_train"), 2 * msl, params["change_score"])
     with sut("SeededBinarySegmentation.fit/predict"):
-        det = K.build(K.detector_spec("SeededBinarySegmentation", params)).fit(X)
+        det = K.build(K.detector_spec("SeededBinarySegmentation", params)).fit(Xtrain)
         y = det.predict(X)
         table = det.scores
         thr = float(det.threshold_)
@@ -96,7 +114,7 @@ def check(case):
         cuts = np.column_stack((np.repeat(s, splits.size), splits, np.repeat(e, splits.size)))
         vals = np.asarray(oracle.evaluate(cuts)).sum(axis=1)
         top = float(vals.max())
-        tol = 1e-9 * (1 + abs(top))
+        tol = 1e-9 * (abs(top) + K.score_magnitude(params["change_score"], X, e - s))
         if abs(sc[i] - top) > tol:
             raise Violation("interval score is not the maximum of the column-summed change score over admissible splits",
                             interval=[s, e], reported=float(sc[i]), maximum=top)
@@ -134,13 +152,15 @@ def check(case):
     if params["threshold_scale"] is not None and params["threshold_scale"] > 0:
         p2 = dict(params, threshold_scale=params["threshold_scale"] * case["scale2"])
         with sut("SeededBinarySegmentation (larger threshold)"):
-            y2 = K.build(K.detector_spec("SeededBinarySegmentation", p2)).fit(X).predict(X)
+            y2 = K.build(K.detector_spec("SeededBinarySegmentation", p2)).fit(Xtrain).predict(X)
         c2 = set(int(v) for v in y2["ilocs"].tolist())
         if not c2 <= set(cpts):
             raise Violation("raising the threshold added a changepoint", lower=cpts, higher=sorted(c2),
                             scales=[params["threshold_scale"], p2["threshold_scale"]])
         if len(c2) < len(cpts):
             classes.append("threshold_removed_some")
+    if len(Xtrain) != n:
+        classes.append("fitted_on_other_length")
     if mil == 2 * msl:
         classes.append("mil=2msl")
     if n == 2 * msl:
